@@ -1,9 +1,11 @@
 (* C18 — Changing the minimum alignment keeps the position aligned and data intact.
-   PARTIAL: entry / exit alignment and preservation of the block invariant at entry are proved;
-   the invariant across the pop (exit) step and the panic conditions of with_settings are
-   covered by the correspondence check only. *)
+   Entry / exit alignment and preservation of the block invariant are proved over the arena model;
+   the run-time checks of the settings conversions are the decision function Conv.conversion_panics
+   (a transcription of RawBump::ensure_satisfies_settings / ensure_scope_satisfies_settings), proved
+   to panic exactly when a requirement of the target type is not met, and compared with the
+   implementation on the complete matrix of arena states and target settings. *)
 From Coq Require Import ZArith List.
-From BS Require Import Word BumpSpec ChunkSpec Arena ArenaInv ArenaExt ArenaMisc ArenaInv2.
+From BS Require Import Word BumpSpec ChunkSpec Arena ArenaInv ArenaExt ArenaMisc ArenaInv2 Conv.
 Import ListNotations.
 Open Scope Z_scope.
 
@@ -54,8 +56,30 @@ Theorem C18_exit_keeps_invariant :
   inv c (fst (step c s0 (OAlignPop true) r)).
 Proof. exact step_inv_align_pop. Qed.
 
+(* conversions: with_settings by value panics exactly when the target type requires an unclaimed
+   arena and it is claimed, or requires an allocated arena and it is unallocated; a scope held by
+   value is never unallocated; the borrow conversions have compile-time checks only *)
+Theorem C18_by_value_conversion_panics_iff :
+  forall news st,
+  conversion_panics ByValue news st = true <->
+  (requires_unclaimed news = true /\ st = AClaimed) \/ (requires_allocated news = true /\ st = AUnallocated).
+Proof. exact by_value_conversion_panics_iff. Qed.
+
+Theorem C18_scope_conversion_panics_iff :
+  forall news st,
+  conversion_panics ScopeByValue news st = true <-> (requires_unclaimed news = true /\ st = AClaimed).
+Proof. exact scope_conversion_panics_iff. Qed.
+
+Theorem C18_borrow_conversions_never_panic :
+  forall news st,
+  conversion_panics Borrow news st = false /\ conversion_panics BorrowMut news st = false.
+Proof. exact borrow_conversions_never_panic. Qed.
+
 Print Assumptions C18_enter_aligns_and_keeps_blocks.
 Print Assumptions C18_exit_keeps_invariant.
 Print Assumptions C18_exit_realigns.
 Print Assumptions C18_scoped_aligned_exit_exact.
 Print Assumptions C18_allocations_keep_position_aligned.
+Print Assumptions C18_by_value_conversion_panics_iff.
+Print Assumptions C18_scope_conversion_panics_iff.
+Print Assumptions C18_borrow_conversions_never_panic.
